@@ -2705,8 +2705,9 @@ def snapshot_workingtree(
         index_entry = getattr(index_entry, "this", index_entry)
         try:
             live_entry = target._live_entry(path)
-        except FileNotFoundError:
-            # Entry was removed; keep it listed, but mark it as gone.
+        except (FileNotFoundError, NotADirectoryError):
+            # Entry was removed (or a parent directory was replaced by a
+            # non-directory); keep it listed, but mark it as gone.
             blobs[path] = (ZERO_SHA, 0)
         else:
             if live_entry is None:
